@@ -365,6 +365,43 @@ def own_kind(raw, dialect, active_sep):
     return 'Other'
 
 
+def grammar_reading(text, default='en'):
+    """Reads a source text with the reference lexer's own-kind classification and the gherkin.berp automaton (E1).
+    Returns (accepted_by_grammar, first line the grammar cannot continue at or None, kinds as read).  Faults that are not
+    about the grammar (tag with whitespace, unknown language, ragged table) are not judged here."""
+    global _SPEC
+    from .berp import Spec
+    if _SPEC is None:
+        _SPEC = Spec()
+    lines = text.split('\n')
+    raw = [l + '\n' for l in lines[:-1]] + ([lines[-1]] if lines[-1] != '' else [])
+    S = _SPEC.initial
+    dialect = default
+    sep = None
+    read = []
+    for n, line in enumerate(raw, 1):
+        k = own_kind(line, dialect, sep)
+        how = _SPEC.read_as(S, k)
+        if how is None:
+            return False, n, read
+        read.append(how)
+        if how == 'skip':
+            continue
+        if how == 'Language':
+            name = R.language_header(line.lstrip())
+            if name in DIALECTS:
+                dialect = name
+        if how == 'DocStringSeparator':
+            if sep is None:
+                sep = '"""' if line.lstrip().startswith('"""') else '```'
+            else:
+                sep = None
+        S = _SPEC.nfa.move(S, how)
+    if _SPEC.step(S, 'EOF') is None:
+        return False, len(raw) + 1, read
+    return True, None, read
+
+
 def roles_ok(renderer):
     """True iff gherkin.berp's automaton under the reading rule reads each line in the role the model intends."""
     global _SPEC
